@@ -174,20 +174,23 @@ namespace rkcommon {
 
     // Inlined operators //////////////////////////////////////////////////////
 
-    template <typename T>
-    inline bool operator<(const IntrusivePtr<T> &a, const IntrusivePtr<T> &b)
+    // NOTE: two template parameters, so that handles of different (related)
+    //       static types compare their pointers instead of silently comparing
+    //       the results of their conversions to bool
+    template <typename T, typename U>
+    inline bool operator<(const IntrusivePtr<T> &a, const IntrusivePtr<U> &b)
     {
       return a.ptr < b.ptr;
     }
 
-    template <typename T>
-    bool operator==(const IntrusivePtr<T> &a, const IntrusivePtr<T> &b)
+    template <typename T, typename U>
+    bool operator==(const IntrusivePtr<T> &a, const IntrusivePtr<U> &b)
     {
       return a.ptr == b.ptr;
     }
 
-    template <typename T>
-    bool operator!=(const IntrusivePtr<T> &a, const IntrusivePtr<T> &b)
+    template <typename T, typename U>
+    bool operator!=(const IntrusivePtr<T> &a, const IntrusivePtr<U> &b)
     {
       return a.ptr != b.ptr;
     }
